@@ -64,6 +64,8 @@ def stmt_code(s, ctx):
         return [("push", s[3]), ("push", s[2]), ("push", s[1]), "CALLDATACOPY"]
     if k == "codecopy":
         return [("push", s[3]), ("push", s[2]), ("push", s[1]), "CODECOPY"]
+    if k == "returndatacopy":
+        return [("push", s[3]), ("push", s[2]), ("push", s[1]), "RETURNDATACOPY"]
     if k == "extcodecopy":  # ("extcodecopy", addr, d, o, n)
         return [("push", s[4]), ("push", s[3]), ("push", s[2]), ("push", s[1]), "EXTCODECOPY"]
     if k == "callx":  # ("callx", "CALL"|"STATICCALL", addr expr): call with empty calldata, record success flag and the first returned word
@@ -115,7 +117,7 @@ def stmt_str(s):
         return f"out(sha3({s[1]},{s[2]}))"
     if k == "log":
         return f"log{len(s[1])}({','.join(expr_str(t) for t in s[1])};{s[2]},{s[3]})"
-    if k in ("mcopy", "calldatacopy", "codecopy"):
+    if k in ("mcopy", "calldatacopy", "codecopy", "returndatacopy"):
         return f"{k}({s[1]},{s[2]},{s[3]})"
     if k == "extcodecopy":
         return f"extcodecopy({s[1]:#x},{s[2]},{s[3]},{s[4]})"
@@ -226,6 +228,9 @@ def statements(kind):
         S.append(("calldatacopy", d, o, n))
     S.append(("codecopy", 0, 0, 32))
     if full:
+        # the return-data buffer is empty here (or holds what an earlier callx left): reading past its end halts, also with size 0 (EIP-211)
+        for (d, o, n) in ((0, 0, 0), (0, 1, 0), (0, 0, 32), (1, 2**200, 0)):
+            S.append(("returndatacopy", d, o, n))
         S.append(("codecopy", 1, 2**20, 33))
     for op in ("MSIZE", "CALLDATASIZE", "CODESIZE", "RETURNDATASIZE", "SELFBALANCE") if full else ("MSIZE",):
         S.append(("out_op", op))
@@ -256,4 +261,5 @@ def statements(kind):
     return S
 
 
-TERMINATORS = [("revert", 0, 32), ("revert", 0, 0), ("return", 1, 33), ("stop",), ("invalid",), ("badjump", 3), ("pop_empty",)]
+TERMINATORS = [("revert", 0, 32), ("revert", 0, 0), ("return", 1, 33), ("stop",), ("invalid",), ("badjump", 3), ("pop_empty",),
+               ("return", 2**200, 0), ("revert", 2**200, 0)]  # size 0: the offset is irrelevant (no memory is touched)
